@@ -41,6 +41,11 @@ def module_program(rng):
         L.append("fn who() { return name; }")
         L.append("fn sees_builtins() { return [type(1), String.from(2), [3].len(), TypeError, type(clock), type(type)]; }")
         L.append("fn leak_check() { try { return main_only; } catch e { return type(e); } }")
+        # globals of every kind of value, to be read and called through the module object
+        L += ["var g_nil = nil;", "var g_unset;", "var g_false = false;", "var g_zero = 0;", "var g_empty = \"\";", "var g_vec = [name];",
+              "var g_native = type;", "var g_strfn = String.from;", "var g_items = [1];", "var g_push = g_items.push;",
+              "#[constructor(new)] class Counter { fn bump(self) { counter = counter + 10; return counter; } #[static] fn make() { return Counter.new(); } }",
+              "var g_inst = Counter.new();", "var g_bound = g_inst.bump;", "var g_lambda = |a| [a, name];", "var g_class = Counter;"]
         deps = []
         for dep in edges[nm]:
             where = r.below(3)
@@ -86,6 +91,13 @@ def module_program(rng):
             if r.chance(40):
                 M.append("fn set_%s() { import \"%s\" as w; w.counter = 500; w.added = \"new\"; return [w.bump(), w.added]; }" % (nm, paths[nm]))
                 M.append("try { print(set_%s()); } catch e { print(type(e)); }" % nm)
+            if r.chance(60):
+                reads = r.sample(["g_nil", "g_unset", "g_false", "g_zero", "g_empty", "g_vec", "g_items", "type(w.g_native)", "type(w.g_bound)", "g_class", "type(w.g_inst)"], 5)
+                calls = r.sample(["g_native(1)", "g_strfn(2)", "g_push(7)", "g_bound()", "g_lambda(3)", "g_class.new().bump()", "g_class.make().bump()",
+                                  "g_inst.bump()", "Counter.make().bump()", "g_vec.len()", "g_nil()", "g_zero(1)"], 5)
+                body = " ".join("try { print(%s); } catch e { print(type(e)); print(e.context); }" % (x if x.startswith("type(") else "w." + x) for x in reads + calls)
+                M.append("fn kinds_%s() { import \"%s\" as w; %s w.g_zero = nil; try { print(w.g_zero); } catch e { print(type(e)); } w.g_nil = 5; print(w.g_nil); w.g_nil = nil; return w.g_items; }" % (nm, paths[nm], body))
+                M.append("try { print(kinds_%s()); } catch e { print(type(e)); print(e.context); }" % nm)
             if r.chance(30):
                 M.append("fn attr_%s() { import \"%s\" as w; return w.no_such_attribute; }" % (nm, paths[nm]))
                 M.append("try { print(attr_%s()); } catch e { print(type(e)); print(e.context); }" % nm)
